@@ -104,6 +104,8 @@ void getmxlist(char *remhost, struct ips **mx) { (void)remhost; mxent.addr = &mx
 struct ips *filter_my_ips(struct ips *ipl) { return ipl; }
 void sortmx(struct ips **p) { (void)p; }
 void freeips(struct ips *p) { (void)p; }
+/* no control/tlshosts/<fqdn>.pem in this engine's world (the pinned-certificate rule of main() belongs to C18) */
+int tls_cert_pinned(void) { return 0; }
 int connect_mx(struct ips *mx, const struct in6_addr *o4, const struct in6_addr *o6)
 {
 	(void)mx; (void)o4; (void)o6;
